@@ -58,7 +58,7 @@ func (x *Ctx) proofLoop(rule string, f *ssa.Function, delegs string) (*paths.Loo
 func init() {
 	register(&Property{
 		Meta: report.Meta{
-			Property: "C01",
+			Property:    "C01",
 			Explanation: "Path-fact analysis of token/invocation (SSA CFG, all acyclic paths, no execution): every success path of both ExecutionAllowed entry points passes through the success of the four stages; verifyProofs cannot succeed with an empty proof list; loadProofs loads proof[i] for every i and fails on any loader error; in verifyProofs every iteration over ALL proofs is guarded by Subject(dlg)==recv.subject and Audience(dlg)==running issuer (init: invocation issuer, then Issuer(dlg)), and success requires the last delegation to be a root; fields audience/meta/nonce/invokedAt/cause are not read anywhere in the authorization path. This decides the structural necessary conditions of the statement, not the behaviour of loaders or DID parsing.",
 			Assumptions: []string{"delegation.Loader returns the delegation the CID names (caller's contract)", "Go struct equality on did.DID (two comparable fields)", "go/ssa faithfully represents the source"},
 			Trusted:     []string{"golang.org/x/tools/go/ssa v0.29.0", "go/types"},
